@@ -94,4 +94,46 @@ pub(crate) mod verif_proofs {
         };
         assert!(e == want, "[C20.event]");
     }
+
+    // ---- [C20.count] / [C20.null] maybenot_on_events on a real (machine-less) instance.
+    // BOUNDED: zero machines, batches of 0 or 1 event.  The instance is built from the crate's own
+    // parts; with zero machines the generator is
+    // never asked for a word, and it is an all-zero value here (seeding goes through cpuid inline assembly
+    // and pthread_atfork, which Kani cannot execute).  Instant::now is a system call: stubbed with a fixed instant.
+    fn stub_now() -> Instant {
+        unsafe { core::mem::zeroed() }
+    }
+
+    #[kani::proof]
+    #[kani::stub(std::time::Instant::now, stub_now)]
+    #[kani::unwind(3)]
+    pub(crate) fn k_ffi_on_events_empty() {
+        // all fields of the generator are plain integers and integer arrays: the all-zero value is valid
+        let rng: Rng = unsafe { core::mem::zeroed() };
+        let Ok(framework) = Framework::new(Vec::<Machine>::new(), 0.0, 0.0, stub_now(), rng) else {
+            panic!("[C20.start] no machines and fractions 0.0 must give an instance");
+        };
+        let mut f = MaybenotFramework { framework, events_buf: Vec::new() };
+        let ev = MaybenotEvent { event_type: MaybenotEventType::NormalSent, machine: kani::any() };
+        let mut act = MaybeUninit::<MaybenotAction>::uninit();
+        let mut n: usize = kani::any();
+        let num_events: usize = kani::any();
+        kani::assume(num_events <= 1);
+        let which: u8 = kani::any();
+        let this: *mut MaybenotFramework = &mut f;
+        let evp: *const MaybenotEvent = if which == 1 { core::ptr::null() } else { &ev };
+        let actp: *mut MaybeUninit<MaybenotAction> = if which == 2 { core::ptr::null_mut() } else { &mut act };
+        let np: *mut usize = if which == 3 { core::ptr::null_mut() } else { &mut n };
+        let r = unsafe { maybenot_on_events(this, evp, num_events, actp, np) };
+        if which >= 1 && which <= 3 {
+            assert!(matches!(r, MaybenotResult::NullPointer), "[C20.null] a null event, action or count pointer is reported");
+        } else {
+            assert!(matches!(r, MaybenotResult::Ok), "[C20.count]");
+            assert!(n == 0, "[C20.count] the count written equals the number of actions (none without machines)");
+            assert!(n <= unsafe { maybenot_num_machines(this) }, "[C20.count]");
+        }
+        kani::cover!(which == 0 && num_events == 0, "empty batch");
+        kani::cover!(which == 0 && num_events == 1, "one event");
+        std::mem::forget(f);
+    }
 }
